@@ -9,8 +9,13 @@ import (
 	pb "github.com/xuperchain/xupercore/bcs/ledger/xledger/xldgpb"
 	"github.com/xuperchain/xupercore/protos"
 	"github.com/xuperchain/xupercore/zzverif/vrt"
+	"github.com/xuperchain/xupercore/zzverif/vrt/memdb"
 	"github.com/xuperchain/xupercore/zzverif/vrt/vkit"
 )
+
+type memdbFaults = memdb.Faults
+
+func newFaults() *memdb.Faults { return memdb.NoFaults() }
 
 // world: a block tree built over one ledger, with symbolic amounts.
 type world struct {
@@ -48,9 +53,17 @@ func (w *world) add(parent int, nonce int32, txs []*pb.Transaction) int {
 //   g <- b1 <- b2      b1: A pays x to B (change to A), writes k1=v1, creates k2
 //   g <- c1            b2: B pays part of x to C with a fee output, deletes k2, overwrites k1
 //                      c1: A pays y to C frozen until height fz
-func build(window string, rich bool) *world {
+// data: 0 = all amounts/values fixed, 1 = main amounts symbolic, 2 = everything symbolic
+func build(window string, data int) *world {
+	rich := data >= 2
 	pick := func(name string, lo, hi, fixed int64) int64 {
 		if rich {
+			return vrt.Int(name, lo, hi)
+		}
+		return fixed
+	}
+	main := func(name string, lo, hi, fixed int64) int64 {
+		if data >= 1 {
 			return vrt.Int(name, lo, hi)
 		}
 		return fixed
@@ -59,7 +72,7 @@ func build(window string, rich bool) *world {
 	w := &world{e: e, blocks: []*pb.InternalBlock{e.Root}, parent: []int{-1}, height: []int64{0}, award: big.NewInt(7), walkable: []bool{true}}
 	root := e.RootTx.Txid
 	hundred := big.NewInt(9) // A's genesis output (single-digit amounts keep the JSON records of outputs in one length class)
-	x := big.NewInt(vrt.Int("x", 1, 9)) // a zero output creates no unspent output that t2 could cite
+	x := big.NewInt(main("x", 1, 9, 4)) // a zero output creates no unspent output that t2 could cite
 	restA := new(big.Int).Sub(hundred, x)
 	v1 := vrt.Bytes("v1", 1)
 	vrt.Assume(v1[0] != 0)
@@ -68,7 +81,7 @@ func build(window string, rich bool) *world {
 	vkit.WithKey(t1, "bk", "k2", nil, 0, []byte("two"))
 	b1 := w.add(0, 1, []*pb.Transaction{vkit.Coinbase("cb1", "M", w.award.Bytes()), t1})
 
-	z := big.NewInt(vrt.Int("z", 0, 9))
+	z := big.NewInt(main("z", 0, 9, 2))
 	fee := big.NewInt(pick("fee", 0, 9, 1))
 	vrt.Assume(new(big.Int).Add(z, fee).Cmp(x) <= 0)
 	restB := new(big.Int).Sub(new(big.Int).Sub(x, z), fee)
@@ -79,7 +92,7 @@ func build(window string, rich bool) *world {
 	vkit.WithKey(t2, "bk", "k2", []byte("t1"), 1, []byte{0})
 	w.add(b1, 2, []*pb.Transaction{vkit.Coinbase("cb2", "M", w.award.Bytes()), t2})
 
-	y := big.NewInt(vrt.Int("y", 0, 9))
+	y := big.NewInt(main("y", 0, 9, 3))
 	fz := pick("frozen", -1, 3, 0)
 	t3 := vkit.Tx("t3", []*protos.TxInput{vkit.In(root, 0, "A", hundred)}, []*protos.TxOutput{vkit.Out("C", y, fz), vkit.Out("A", new(big.Int).Sub(hundred, y), 0)})
 	t3.Autogen = true
@@ -149,8 +162,8 @@ func conservation(w *world, s *state.State, at int, when string) {
 
 // walks: a sequence of K operations (play next / walk anywhere / restart); after
 // each, the live state must equal a fresh replica walked to the same block.
-func walks(K int, window string, rich bool) {
-	w := build(window, rich)
+func walks(K int, window string, data int) {
+	w := build(window, data)
 	s := w.fresh("live", 0)
 	at := 0
 	maxApplied := int64(0)
@@ -230,10 +243,11 @@ func walks(K int, window string, rich bool) {
 	}
 }
 
-func VerifC01Quick()    { walks(2, "0", false) }
-func VerifC01Thorough() { walks(2, "0", true) }
-func VerifC01Deep()     { walks(3, "0", false) }
-func VerifC17Walks()    { walks(3, "1", false) }
+func VerifC01Quick()    { walks(2, "0", 1) }
+func VerifC01Thorough() { walks(2, "0", 2) }
+func VerifC01Deep()     { walks(3, "0", 0) }
+func VerifC17Walks()    { walks(3, "1", 0) }
+func VerifC17Walks2()   { walks(3, "2", 0) }
 
 // VerifC02Tx: one arbitrary transfer transaction submitted to the pool of a
 // node at genesis (unspent: root/0 -> A 9, root/1 -> B 5). If it is admitted,
@@ -638,3 +652,173 @@ func verifC18(N int) {
 
 func VerifC18Quick()    { verifC18(3) }
 func VerifC18Thorough() { verifC18(4) }
+
+// ---------------------------------------------------------------- C05 / C06
+
+// scene: genesis and b1 (cb + t1: A pays x to B, writes k1) confirmed and played; candidates for further operations.
+type scene struct {
+	e        *vkit.Env
+	s        *state.State
+	b1       *pb.InternalBlock
+	blockIDs [][]byte
+	txIDs    [][]byte
+	x        *big.Int
+}
+
+func newScene(name string, f *memdbFaults) *scene {
+	sc := &scene{}
+	sc.e = vkit.NewEnv(name, vkit.Genesis("0", "9", "5"), f)
+	sc.s = sc.e.NewState("live")
+	vrt.Assert(sc.s.Play(sc.e.Root.Blockid) == nil, "genesis-plays")
+	sc.x = big.NewInt(vrt.Int("x", 1, 9))
+	t1 := vkit.Tx("t1", []*protos.TxInput{vkit.In(sc.e.RootTx.Txid, 0, "A", big.NewInt(9))}, []*protos.TxOutput{vkit.Out("B", sc.x, 0), vkit.Out("A", new(big.Int).Sub(big.NewInt(9), sc.x), 0)})
+	vkit.WithKey(t1, "bk", "k1", nil, 0, []byte("one"))
+	sc.b1 = vkit.Block(sc.e.Root.Blockid, 1, []*pb.Transaction{vkit.Coinbase("cb1", "M", []byte{7}), t1})
+	vrt.Assert(sc.e.L.ConfirmBlock(sc.b1, false).Succ, "b1-confirmed")
+	vrt.Assert(sc.s.Play(sc.b1.Blockid) == nil, "b1-plays")
+	sc.blockIDs = [][]byte{sc.e.Root.Blockid, sc.b1.Blockid}
+	sc.txIDs = [][]byte{sc.e.RootTx.Txid, []byte("cb1"), []byte("t1")}
+	return sc
+}
+
+// goodTx2 spends B's x (from t1) to C and overwrites k1.
+func (sc *scene) goodTx2() *pb.Transaction {
+	t := vkit.Tx("t2", []*protos.TxInput{vkit.In([]byte("t1"), 0, "B", sc.x)}, []*protos.TxOutput{vkit.Out("C", sc.x, 0)})
+	return vkit.WithKey(t, "bk", "k1", []byte("t1"), 0, []byte("two"))
+}
+
+// badTx cites an output that does not exist.
+func (sc *scene) badTx() *pb.Transaction {
+	return vkit.Tx("bad", []*protos.TxInput{vkit.In([]byte("nope"), 0, "B", big.NewInt(3))}, []*protos.TxOutput{vkit.Out("C", big.NewInt(3), 0)})
+}
+
+func (sc *scene) observe() (*vkit.Obs, []string) {
+	return vkit.Observe(sc.s), vkit.ObserveLedger(sc.e.L, sc.blockIDs, sc.txIDs)
+}
+
+// liveEqualsReopened: fresh instances on the same storage answer like the running ones.
+func (sc *scene) liveEqualsReopened(tag string, afterFailedPlay bool) {
+	so, lo := sc.observe()
+	s2 := sc.e.NewState("live")
+	l2 := sc.e.Reopen()
+	vkit.Same(so, vkit.Observe(s2), func(c bool, label string) {
+		vrt.Known("failed-block-play-leaves-memory-mutated", afterFailedPlay)
+		vrt.Assert(c, "reopened-state-"+label)
+	})
+	vkit.SameStrings(lo, vkit.ObserveLedger(l2, sc.blockIDs, sc.txIDs), vrt.Assert, "reopened-ledger-answers-like-running-ledger")
+	_ = tag
+}
+
+// verifC05: one operation that fails (kind chosen structurally, write-fault position symbolic where
+// applicable) on a reached state, then a valid follow-up operation.
+func verifC05() {
+	f := newFaults()
+	sc := newScene("c05", f)
+	before, _ := sc.observe()
+	coreL := func() []string { return vkit.ObserveLedger(sc.e.L, sc.blockIDs[:2], sc.txIDs[:3]) }
+	lbefore := coreL()
+	kind := vrt.Choice("failure", 7)
+	var b2 *pb.InternalBlock
+	stateMustBeUnchanged, ledgerMustBeUnchanged := true, true
+	switch kind {
+	case 0: // block with unknown parent
+		b := vkit.Block([]byte("unknown-parent"), 9, []*pb.Transaction{vkit.Coinbase("cbx", "M", []byte{7})})
+		sc.blockIDs = append(sc.blockIDs, b.Blockid)
+		st := sc.e.L.ConfirmBlock(b, false)
+		vrt.Assert(!st.Succ, "unknown-parent-refused")
+	case 1: // block with two coinbases
+		b := vkit.Block(sc.b1.Blockid, 9, []*pb.Transaction{vkit.Coinbase("cbx", "M", []byte{7}), vkit.Coinbase("cby", "M", []byte{7})})
+		sc.blockIDs = append(sc.blockIDs, b.Blockid)
+		sc.txIDs = append(sc.txIDs, []byte("cbx"), []byte("cby"))
+		st := sc.e.L.ConfirmBlock(b, false)
+		vrt.Assert(!st.Succ, "two-coinbases-refused")
+		// a child of the refused block must be refused as well
+		c := vkit.Block(b.Blockid, 10, []*pb.Transaction{vkit.Coinbase("cbz", "M", []byte{7})})
+		sc.blockIDs = append(sc.blockIDs, c.Blockid)
+		st2 := sc.e.L.ConfirmBlock(c, false)
+		vrt.Known("header-cached-before-commit", true)
+		vrt.Assert(!st2.Succ, "child-of-refused-block-refused")
+	case 2: // storage write error while confirming a valid block
+		b := vkit.Block(sc.b1.Blockid, 9, []*pb.Transaction{vkit.Coinbase("cbx", "M", []byte{7}), sc.goodTx2()})
+		sc.blockIDs = append(sc.blockIDs, b.Blockid)
+		sc.txIDs = append(sc.txIDs, []byte("cbx"), []byte("t2"))
+		f.FailAt = f.Writes + vrt.Choice("write", 2)
+		st := sc.e.L.ConfirmBlock(b, false)
+		failed := f.Writes > f.FailAt
+		f.FailAt = -1
+		vrt.Cover("confirm-write-failed", failed && !st.Succ)
+		if st.Succ {
+			ledgerMustBeUnchanged = false
+		}
+	case 3: // play of a confirmed block whose second user transaction has a missing input
+		b2 = vkit.Block(sc.b1.Blockid, 9, []*pb.Transaction{vkit.Coinbase("cbx", "M", []byte{7}), sc.goodTx2(), sc.badTx()})
+		vrt.Assert(sc.e.L.ConfirmBlock(b2, false).Succ, "ledger-stores-block")
+		ledgerMustBeUnchanged = false
+		sc.blockIDs = append(sc.blockIDs, b2.Blockid)
+		lbefore = coreL()
+		err := sc.s.Play(b2.Blockid)
+		vrt.Assert(err != nil, "block-with-missing-input-refused")
+		ledgerMustBeUnchanged = true
+		b2 = nil
+	case 4: // storage write error while playing a valid block
+		b := vkit.Block(sc.b1.Blockid, 9, []*pb.Transaction{vkit.Coinbase("cbx", "M", []byte{7}), sc.goodTx2()})
+		vrt.Assert(sc.e.L.ConfirmBlock(b, false).Succ, "ledger-stores-block")
+		sc.blockIDs = append(sc.blockIDs, b.Blockid)
+		sc.txIDs = append(sc.txIDs, []byte("cbx"), []byte("t2"))
+		lbefore = coreL()
+		f.FailAt = f.Writes + vrt.Choice("write", 2)
+		err := sc.s.Play(b.Blockid)
+		failed := f.Writes > f.FailAt
+		f.FailAt = -1
+		vrt.Cover("play-write-failed", failed && err != nil)
+		if err == nil {
+			stateMustBeUnchanged = false
+		}
+	case 5: // pool submission with a missing input
+		err := sc.s.DoTx(sc.badTx())
+		vrt.Assert(err != nil, "missing-input-refused")
+	case 6: // storage write error while admitting a valid pool transaction
+		f.FailAt = f.Writes + vrt.Choice("write", 2)
+		err := sc.s.DoTx(sc.goodTx2())
+		failed := f.Writes > f.FailAt
+		f.FailAt = -1
+		vrt.Cover("dotx-write-failed", failed && err != nil)
+		if err == nil {
+			stateMustBeUnchanged = false
+		}
+	}
+	vrt.Quiesce()
+	after, lafter := sc.observe()
+	// known-finding class: the failing operation was the play of a block (see known_findings.json)
+	failedPlay := kind == 3 || kind == 4
+	if stateMustBeUnchanged {
+		vkit.Same(before, after, func(c bool, label string) {
+			vrt.Known("failed-block-play-leaves-memory-mutated", failedPlay)
+			vrt.Assert(c, "failed-operation-leaves-state-"+label)
+		})
+	}
+	if ledgerMustBeUnchanged {
+		// compare only what was observable before (ids added for the failed operation must be absent)
+		vkit.SameStrings(lbefore, coreL(), vrt.Assert, "failed-operation-leaves-ledger-answers-unchanged")
+		for _, l := range lafter {
+			vrt.Assert(len(l) < 27 || l[len(l)-27:] != "header-served-without-block", "refused-block-is-not-served")
+		}
+	}
+	sc.liveEqualsReopened("after-failure", failedPlay && stateMustBeUnchanged)
+	_ = b2
+	// the node carries on like one that never saw the failed operation
+	if kind == 0 || kind == 1 || kind == 5 {
+		vb := vkit.Block(sc.b1.Blockid, 20, []*pb.Transaction{vkit.Coinbase("cbv", "M", []byte{7}), sc.goodTx2()})
+		vrt.Assert(sc.e.L.ConfirmBlock(vb, false).Succ, "valid-block-confirmed-after-failure")
+		vrt.Assert(sc.s.Play(vb.Blockid) == nil, "valid-block-plays-after-failure")
+		rep := sc.e.NewState("clean-replica")
+		for _, b := range []*pb.InternalBlock{sc.e.Root, sc.b1, vb} {
+			vrt.Assert(rep.Play(b.Blockid) == nil, "replica-plays-chain-in-order")
+		}
+		vkit.Same(vkit.Observe(sc.s), vkit.Observe(rep), func(c bool, label string) { vrt.Assert(c, "after-failure-node-equals-clean-node-"+label) })
+		sc.blockIDs = append(sc.blockIDs, vb.Blockid)
+		sc.liveEqualsReopened("after-follow-up", false)
+	}
+}
+
+func VerifC05Quick() { verifC05() }
